@@ -1,9 +1,13 @@
 """util/parsenum.h (PARSENUM / PARSENUM_EX) and util/humansize.c against the extracted model and spec.
 
 C16: check_parsenum (integers: impl = model = parse_spec on every (call site, string); floats: impl = model
-     given an independently computed strtod oracle) and check_humansize (humansize / humansize_parse).
+     = an oracle computed here (strtod's answer, the wrapper's outcome, and for float targets the
+     correctly rounded narrowing in rational arithmetic); plus the probe of the known deviation
+     "parsenum.float-target-narrowing": a float target accepts values outside float) and check_humansize
+     (humansize / humansize_parse).
 C15: check_parsenum_safety (malformed stream: ASan/UBSan-clean on exact-size strings, the model
      reports no Fault, every accepted value lies inside the bounds and the type)."""
+import fractions
 import importlib.util
 import math
 import os
@@ -317,15 +321,67 @@ def py_strtod(text):
     return m.end(), v, er
 
 
-def dtok(v, width):
-    if width == 32 and not math.isnan(v) and not math.isinf(v):
-        try:
-            v = struct.unpack("<f", struct.pack("<f", v))[0]
-        except OverflowError:
-            v = math.copysign(float("inf"), v)
+def dbits(v):
+    """the double as 16 hex digits ("nan" for a NaN: its sign / payload are not compared)"""
     if math.isnan(v):
         return "nan"
     return "%016x" % struct.unpack("<Q", struct.pack("<d", v))[0]
+
+
+FLT_MAX = float(2 ** 128 - 2 ** 104)
+
+
+def narrow32(v):
+    """(float)v as a binary32 pattern, correctly rounded (nearest, ties to even, overflow to infinity, gradual
+    underflow), in rational arithmetic: independent of the C compiler, of libc and of the Coq model"""
+    sign = 0x80000000 if math.copysign(1.0, v) < 0 else 0
+    if math.isinf(v):
+        return sign | 0x7f800000
+    if v == 0:
+        return sign
+    fr = fractions.Fraction(abs(v))
+    k = fr.numerator.bit_length() - fr.denominator.bit_length()
+    if fractions.Fraction(2) ** k > fr:
+        k -= 1
+    assert fractions.Fraction(2) ** k <= fr < fractions.Fraction(2) ** (k + 1)
+    q = max(k - 23, -149)
+    n = round(fr / fractions.Fraction(2) ** q)          # round() of a Fraction: half to even
+    if n == 2 ** 24:
+        n, q = 2 ** 23, q + 1
+    if q + 23 > 127:
+        return sign | 0x7f800000
+    if n < 2 ** 23:
+        assert q == -149
+        return sign | n
+    return sign | ((q + 150) << 23) | (n - 2 ** 23)
+
+
+def narrow32_cast(v):
+    """the same through CPython's own C cast (struct 'f'), used to cross-check the oracle"""
+    try:
+        return struct.unpack("<I", struct.pack("<f", v))[0]
+    except OverflowError:
+        return (0x80000000 if v < 0 else 0) | 0x7f800000
+
+
+def stored_tok(v, width):
+    """what *x must hold after the assignment of the double v"""
+    if math.isnan(v):
+        return "nan"
+    return "%08x" % narrow32(v) if width == 32 else dbits(v)
+
+
+def float_oracle(s, text, consumed, v, er, mn, mx):
+    """(what the code does, what the property asks) for one float call: the wrapper's tests re-stated, the value
+    left in the target, and the property's extra demand that a finite value lie within the target type"""
+    tok = stored_tok(v, s["width"])
+    if consumed == 0 or (not s["trailing"] and consumed != len(text)):
+        return "EINVAL " + tok, "EINVAL"
+    if v < mn or v > mx or er:
+        return "ERANGE " + tok, "ERANGE"
+    if s["width"] == 32 and not math.isnan(v) and not math.isinf(v) and abs(v) > FLT_MAX:
+        return "OK " + tok, "ERANGE"
+    return "OK " + tok, "OK"
 
 
 F_POOL = [b"0", b"-0", b"1", b"-1", b"0.5", b".5", b"5.", b"1e3", b"1E3", b"1e+3", b"1e-3", b"1.5e2", b"123.456",
@@ -340,20 +396,85 @@ F_POOL = [b"0", b"-0", b"1", b"-1", b"0.5", b".5", b"5.", b"1e3", b"1E3", b"1e+3
           b"-1.5", b"-1.5000000000000002", b"1000", b"1000.0000000000001", b"0.001", b"0.00099999999999999"]
 
 
+# strings aimed at the edges of float: FLT_MAX, the overflow threshold 2^128 - 2^103 (an exact tie), FLT_MIN, the
+# least subnormal 2^-149 and half of it (a tie with zero), ties in the 24th bit
+F_EDGE = [b"3.4028234663852886e38", b"3.4028235e38", b"3.4028236e38", b"3.40282346638528859811704183484516925440e38",
+          b"340282346638528859811704183484516925440", b"340282356779733661637539395458142568448",
+          b"340282356779733623858607532500980858880", b"340282356779733661637539395458142568449",
+          b"340282366920938463463374607431768211456", b"1e39", b"-1e39", b"1e300", b"-1e300", b"1.7976931348623157e308",
+          b"0x1.fffffep127", b"0x1.ffffffp127", b"0x1.fffffefffffffp127", b"0x1.ffffff0000001p127", b"0x1p128",
+          b"-0x1.ffffffp127", b"0x1p1023", b"1e-50", b"-1e-50", b"1e-300", b"1e-45", b"1.4e-45", b"7e-46", b"7.1e-46",
+          b"7.006492321624085e-46", b"7.006492321624086e-46", b"1e-38", b"1.17549435e-38", b"1.1754942e-38",
+          b"1.1754943508222875e-38", b"0x1p-126", b"0x1.fffffcp-127", b"0x1p-127", b"0x1p-149", b"0x1p-150",
+          b"0x1.0000000000001p-150", b"0x1.8p-149", b"0x1.4p-149", b"0x1.cp-149", b"0x1.8p-148", b"-0x1p-150",
+          b"0x1p-151", b"0x1.fffffffffffffp-151", b"0x1.000001p0", b"0x1.0000008p0", b"0x1.0000018p0",
+          b"0x1.00000080000001p0", b"0x1.0000017ffffffp0", b"0x1.fffffffp0", b"0x1.ffffffp-127", b"16777217", b"16777219",
+          b"33554434", b"33554438", b"0.1", b"-0.1", b"1e-40", b"1e38", b"65504", b"4e38", b"2e-38"]
+
+
+def edge_string(ctx, r):
+    """a numeral whose double sits on / next to a rounding boundary of float, or well outside float"""
+    k = r.randrange(10)
+    if k < 3:
+        ctx.count("pf.float_edge_pool")
+        return r.choice(F_EDGE)
+    if k < 7:
+        # a float (any exponent, subnormals and the top binade included), moved by 0, +-1 double ulp, or to the
+        # midpoint to its neighbour (+- 1 double ulp): exact ties and near-ties
+        bits = r.choice([r.randrange(0, 0x7f800000), r.randrange(0, 0x00800000 * 3), r.randrange(0x7e800000, 0x7f800000)])
+        f = struct.unpack("<f", struct.pack("<I", bits))[0]
+        g = struct.unpack("<f", struct.pack("<I", min(bits + 1, 0x7f7fffff)))[0]
+        if bits == 0x7f7fffff and r.random() < 0.7:
+            g = 2.0 ** 128                      # the tie above FLT_MAX
+        v = r.choice([f, (f + g) / 2, (f + g) / 2, f + (g - f) / 4])
+        for _ in range(r.choice([0, 0, 1, 1, 2])):
+            v = math.nextafter(v, r.choice([0.0, math.inf]))
+        ctx.count("pf.float_boundary")
+    else:
+        # anywhere in double's range, far outside float as often as inside
+        v = math.ldexp(1.0 + r.random(), r.randrange(-170, 150) if r.random() < 0.7 else r.randrange(-1000, 1000))
+        ctx.count("pf.float_any_exponent")
+    if abs(v) > FLT_MAX and not math.isinf(v):
+        ctx.count("pf.beyond_flt_max")
+    if 0 < abs(v) < 2.0 ** -126:
+        ctx.count("pf.below_flt_min")
+    if r.random() < 0.35:
+        v = -v
+    if math.isinf(v) or math.isnan(v):
+        return b"1e39"
+    return (v.hex() if r.random() < 0.4 else repr(v)).encode()
+
+
+def pf_case(ctx, i, s, t):
+    """the case line for string t at float site s (strtod's answer and the comparisons computed here)"""
+    mn = s["min"] if s["min"] is not None else float("-inf")
+    mx = s["max"] if s["max"] is not None else float("inf")
+    consumed, v, er = py_strtod(t)
+    cls = "nan" if math.isnan(v) else "inf" if math.isinf(v) else "fin"
+    case = "pf %d %s %s %d %d %d %d %s %s" % (i, s["desc"], hx(t), consumed, int(er), int(v < mn), int(v > mx), cls,
+                                              dbits(v))
+    does, asks = float_oracle(s, t, consumed, v, er, mn, mx)
+    if s["width"] == 32 and cls == "fin" and narrow32(v) != narrow32_cast(v):
+        ctx.fail("parsenum.float", "tie", describe(case), "the two narrowing oracles disagree: %08x vs %08x"
+                 % (narrow32(v), narrow32_cast(v)))
+    return case, does, asks
+
+
 def float_cases(ctx, sl, per_site):
+    """-> (case lines, what the code does per the oracle, what the property asks: OK / EINVAL / ERANGE)"""
     r = ctx.rng
-    cases = []
+    cases, does, asks = [], [], []
     for i, s in enumerate(sl):
         if s["kind"] != "f":
             continue
-        mn = s["min"] if s["min"] is not None else float("-inf")
-        mx = s["max"] if s["max"] is not None else float("inf")
         for _ in range(per_site):
-            k = r.randrange(10)
-            if k < 5:
+            k = r.randrange(100)
+            if k < (40 if s["width"] == 32 else 20):
+                t = edge_string(ctx, r)
+            elif k < 65:
                 t = r.choice(F_POOL)
                 ctx.count("pf.pool")
-            elif k < 8:
+            elif k < 87:
                 m = r.choice([r.randrange(0, 1000), r.randrange(0, 10 ** 17)])
                 f = r.choice([b"", b".", b".%d" % r.randrange(0, 10 ** 6)])
                 e = r.choice([b"", b"", b"e%d" % r.randrange(-40, 41), b"E+%d" % r.randrange(0, 300)])
@@ -369,11 +490,61 @@ def float_cases(ctx, sl, per_site):
             elif d == 1:
                 t = t + r.choice([b" ", b"x", b"f", b"L", b"e", b"..", b"\x80", b"-", b"p1", b"inf"])
                 ctx.count("pf.trailing")
-            consumed, v, er = py_strtod(t)
-            cls = "nan" if math.isnan(v) else "inf" if math.isinf(v) else "fin"
-            cases.append("pf %d %s %s %d %d %d %d %s %s" % (i, s["desc"], hx(t), consumed, int(er),
-                                                           int(v < mn), int(v > mx), cls, dtok(v, s["width"])))
-    return cases
+            c, dz, az = pf_case(ctx, i, s, t)
+            cases.append(c)
+            does.append(dz)
+            asks.append(az)
+    return cases, does, asks
+
+
+# the known deviation (property C16): float targets are range-checked as doubles and narrowed afterwards
+SIG_FLOAT_NARROWING = "parsenum.float-target-narrowing"
+PROBE = [("p2", None, None, b"1e300"), ("p4", 0.0, 1e308, b"1e300"), ("p2", None, None, b"3.5e38"),
+         ("p2", None, None, b"-1e300")]
+PROBE_UNDERFLOW = [("p2", None, None, b"1e-50"), ("p4", 0.0, 1.0, b"1e-300")]
+
+
+def find_float_site(sl, form, mn, mx, width=32):
+    for i, s in enumerate(sl):
+        if s["kind"] == "f" and s["width"] == width and s["form"] == form and s["min"] == mn and s["max"] == mx:
+            return i, s
+    return None
+
+
+def call_text(s, t):
+    b = "" if s["min"] is None else ", %s, %s" % (s["cmin"], s["cmax"])
+    return "%s x; PARSENUM(&x, \"%s\"%s)" % (s["ctype"], t.decode(), b)
+
+
+def probe_float_narrowing(ctx, sub, exe, mexe, sl):
+    """Runs the witnesses of C16_parsenum_float_narrowing_refuted through the compiled header on every run.
+    A float target that reports success for a finite value beyond FLT_MAX is the known finding; it is
+    reported once, with the signature the coordinator lists."""
+    rows = []
+    for form, mn, mx, t in PROBE + PROBE_UNDERFLOW:
+        fs = find_float_site(sl, form, mn, mx)
+        if fs is None:
+            ctx.fail(sub, "tie", "", "no generated float call site %s (%r, %r) for the narrowing probe" % (form, mn, mx))
+            return
+        c, dz, az = pf_case(ctx, fs[0], fs[1], t)
+        rows.append((fs[1], t, c, dz, az))
+    cases = [x[2] for x in rows]
+    impl, st = vlib.run_sharded(exe, cases, env=ASAN_ENV)
+    model, _ = vlib.run_sharded(mexe, cases)
+    san_reports(ctx, sub, st, cases, impl)
+    # the model states what the code does (proved: C16_parsenum_float_narrowing_refuted), so it must agree here too
+    vlib.tri_compare(ctx, sub, cases, impl, model, [x[3] for x in rows], describe=describe)
+    seen = ["%s -> %s" % (call_text(s, t), a) for (s, t, _, _, _), a in zip(rows, impl)]
+    hit = [(c, s, t, a) for (s, t, c, _, az), a in zip(rows[:len(PROBE)], impl) if a.startswith("OK") and az == "ERANGE"]
+    ctx.count("pf.probe_accepted_outside_float", len(hit))
+    if hit:
+        c, s, t, a = hit[0]
+        ctx.fail(sub, "property", describe(c),
+                 "known deviation: %s returns 0 with errno 0 and leaves %s (infinity) in the float although the value "
+                 "is finite, inside the requested bounds and beyond FLT_MAX: the macro compares the double with the "
+                 "bounds and narrows it afterwards; the property asks ERANGE.  All observations: %s"
+                 % (call_text(s, t), a.split()[-1], "; ".join(seen)),
+                 property_fails=True, signature=SIG_FLOAT_NARROWING)
 
 
 # --------------------------------------------------------------------------
@@ -411,11 +582,20 @@ def check_parsenum(ctx):
     vlib.tri_compare(ctx, sub, cases, [proj(x) for x in impl], [proj(x) for x in model], spec, describe=describe)
     # the full observable incl. the value left in *x on failure: implementation = model
     vlib.compare(ctx, sub + ".stored", cases, impl, model, describe=describe, property_pred=not_property)
-    fc = float_cases(ctx, sl, ctx.n(90, 2500))
+    fc, fdoes, fasks = float_cases(ctx, sl, ctx.n(90, 2500))
     fimpl, fst = vlib.run_sharded(exe, fc, env=ASAN_ENV)
     fmodel, _ = vlib.run_sharded(mexe, fc)
     san_reports(ctx, sub + ".float", fst, fc, fimpl)
-    vlib.tri_compare(ctx, sub + ".float", fc, fimpl, fmodel, None, describe=describe)
+    # what the code does: implementation = model (its own narrowing, proved correctly rounded) = oracle
+    vlib.tri_compare(ctx, sub + ".float", fc, fimpl, fmodel, fdoes, describe=describe)
+    # what the property asks: the generated cases on which the code accepts a value outside float are counted
+    # here; the deviation itself is reported once, by the probe
+    ctx.count("pf.generated_accepted_outside_float",
+              sum(1 for a, q in zip(fimpl, fasks) if a.startswith("OK") and q == "ERANGE"))
+    ctx.count("pf.generated_underflow_to_zero",
+              sum(1 for c, a in zip(fc, fimpl) if a in ("OK 00000000", "OK 80000000")
+                  and c.split()[-1] not in ("0000000000000000", "8000000000000000")))
+    probe_float_narrowing(ctx, sub + ".float_narrowing", exe, mexe, sl)
     ok = sum(1 for x in impl if x.startswith("OK"))
     ctx.count("pn.result_ok", ok)
     ctx.count("pn.result_einval", sum(1 for x in impl if x.startswith("EINVAL")))
@@ -425,8 +605,12 @@ def check_parsenum(ctx):
                "type limits, negative bounds for unsigned targets, bounds beyond the type; bases 0,2,3,7,8,10,11,16,35,36; "
                "trailing on/off) x strings adjacent to every limit, wrap-around candidates modulo 2^w and 2^64, "
                "20-70 digit runs, signs, blanks, prefixes, junk; outcome compared impl = model = parse_spec, stored "
-               "value impl = model; floats: impl = model given strtod's answer computed independently in Python "
-               "(class / bit pattern only); non-trivial = distinct (case, result)" % len(sl),
+               "value impl = model; floats (float and double targets, bounds inside / at / beyond the range of float): "
+               "errno and the bit pattern left in the target impl = model = oracle, strtod's answer and the correctly "
+               "rounded narrowing computed independently in Python (rational arithmetic), strings on FLT_MAX, the "
+               "overflow tie 2^128-2^103, FLT_MIN, the subnormal ties, and far outside float; the known deviation "
+               "(float target accepts a value beyond FLT_MAX) is probed on every run; "
+               "non-trivial = distinct (case, result)" % len(sl),
                samples=[describe(cases[len(cases) // 2])[:300], describe(fc[0])[:300]])
 
 
@@ -530,7 +714,7 @@ def check_parsenum_safety(ctx):
     r = ctx.rng
     cases = int_cases(ctx, sl, ctx.n(16, 400), malformed_only=True)
     ni = len(cases)
-    cases += float_cases(ctx, sl, ctx.n(25, 500))
+    cases += float_cases(ctx, sl, ctx.n(25, 500))[0]
     nf = len(cases)
     hp = hp_strings(ctx, r, ctx.n(1500, 40000))
     hp += [bytes(r.choice(b"0123456789") for _ in range(r.randrange(18, 60))) + r.choice([b"", b" ", b" E", b"kB"])
